@@ -174,6 +174,7 @@ NativeAce(plat, a) ==
   /\ a.sk.proto \in {"none", "num"} \/ Has(ProtoTable(plat), a.sk.proto)
   /\ plat = "nxos" => a.typ = "extended"
   /\ (a.sp.op # "" \/ a.dp.op # "") => a.proto \in {6, 17}
+  /\ (a.sp.op # "" \/ a.dp.op # "") => a.sk.proto # "num"        \* port operators follow the tcp / udp keyword only
 (* the names-as-numbers switches: with the switch on nothing is spelled as a name
    (tcp/udp keep their names when the entry has ports: Cisco would not accept "6 ... eq 80") *)
 SwitchesRespected(a, portNr, protoNr) ==
